@@ -670,7 +670,10 @@ def ids_case(case):
             model.systems.add_system(Rec(k, model, case['prios'][i], start, end, freq, sid=pool[k]))
     horizon = case['horizon']
     done = 0
+    gone = case.get('remove')         # [key, timestep before which it is removed] (steps are single then)
     for n in case['steps']:
+        if gone and done == gone[1]:
+            model.systems.remove_system(gone[0])
         if n == 1:
             model.execute()
         else:
@@ -681,7 +684,7 @@ def ids_case(case):
     prio = dict(zip(case['which'], case['prios']))
     exp = []
     for t in range(horizon):
-        due = [k for k in case['which'] if active(t, *specs[k])]
+        due = [k for k in case['which'] if active(t, *specs[k]) and not (gone and k == gone[0] and t >= gone[1])]
         due.sort(key=lambda k: -prio[k])
         exp += [(t, k) for k in due]
     if log != exp:
@@ -703,6 +706,13 @@ def ids_cases():
                'horizon': 10, 'shift': 3}
         for which, prios in ((['d1', 'd2'], [2, 1]), (['d1', 'd2'], [1, 1]), (['d1', 'd2', 'd3'], [1, 2, 3])):
             yield {'leg': 'ids', 'kind': 'value_equal', 'which': which, 'prios': prios, 'steps': steps, 'horizon': 10}
+    # ... and one of the equal systems is removed between two timesteps: IT stops running, its twins carry on
+    for which, prios in ((['d1', 'd2'], [2, 1]), (['d1', 'd2'], [1, 1]), (['d1', 'd2', 'd3'], [1, 2, 3]),
+                         (['d1', 'd2', 'd3'], [0, 0, 0])):
+        for k in which:
+            for at in (0, 2, 5):
+                yield {'leg': 'ids', 'kind': 'value_equal', 'which': which, 'prios': prios, 'steps': [1] * 10, 'horizon': 10,
+                       'remove': [k, at]}
 
 
 ROUND_N = [1000, 1024, 2048, 4096, 8192, 10000, 16384, 20000, 30000, 32768, 50000, 65536, 100000]
